@@ -179,7 +179,11 @@ def _chmod_files(entries, path, fs):
 
     for entry in entries:
         entry_path = fs.join(path, *entry.key)
-        mode = os.stat(entry_path).st_mode | stat.S_IEXEC
+        try:
+            mode = os.stat(entry_path).st_mode | stat.S_IEXEC
+        except FileNotFoundError:
+            # the file could not be created (already reported through onerror)
+            continue
         try:
             os.chmod(entry_path, mode)
         except OSError:
